@@ -513,6 +513,15 @@ Proof.
   - apply N.eqb_neq in E1. split; [discriminate|]. intros [H _]. contradiction.
 Qed.
 
+Lemma arp_frame_reply_iff s intf mac f :
+  arp_process_frame s intf mac f = DNone <->
+  f_op f = 1%N /\ (f_eth_dst f = bcast \/ f_eth_dst f = mac) /\ should_announce s (f_target f) intf = DNone.
+Proof. unfold arp_process_frame. apply arp_reply_iff. Qed.
+
+Lemma arp_frame_tha_irrelevant s intf mac f tha :
+  arp_process_frame s intf mac (mk_arp_frame (f_eth_dst f) (f_op f) tha (f_target f)) = arp_process_frame s intf mac f.
+Proof. reflexivity. Qed.
+
 Lemma ndp_reply_iff s intf ns ll t :
   ndp_process s intf ns ll t = DNone <-> ns = true /\ ll = true /\ should_announce s t intf = DNone.
 Proof. unfold ndp_process. destruct ns, ll; cbn; intuition discriminate. Qed.
